@@ -22,11 +22,96 @@ type C09Path struct {
 	Template string   `json:"template"`
 	Methods  []string `json:"methods"`
 }
+type C09Var struct {
+	Default string   `json:"default"`
+	Enum    []string `json:"enum,omitempty"`
+}
+type C09Server struct {
+	URL  string            `json:"url"`
+	Vars map[string]C09Var `json:"variables,omitempty"`
+}
 type C09Case struct {
 	Paths  []C09Path `json:"paths"`
 	Method string    `json:"method"`
-	Path   string    `json:"path"`
+	Path   string    `json:"path"` // without servers: the request URL; with servers: what is left after the matched server (filled in by strip)
+	// documents with servers: the request URL as sent (absolute for absolute servers)
+	Servers []C09Server `json:"servers,omitempty"`
+	URL     string      `json:"url,omitempty"`
+	NoMatch bool        `json:"no_server_matches,omitempty"`
 }
+
+// every URL prefix a server stands for when its variables take their default or an enum value
+func (sv *C09Server) prefixes() []string {
+	out := []string{sv.URL}
+	names := make([]string, 0, len(sv.Vars))
+	for n := range sv.Vars {
+		names = append(names, n)
+	}
+	sort.Strings(names)
+	for _, n := range names {
+		vals := append([]string{sv.Vars[n].Default}, sv.Vars[n].Enum...)
+		var next []string
+		for _, p := range out {
+			for _, v := range vals {
+				next = append(next, strings.ReplaceAll(p, "{"+n+"}", v))
+			}
+		}
+		out = next
+	}
+	return out
+}
+
+// the URLs a server stands for, as a pattern: a variable with an enum ranges over it (and its
+// default), a variable without one over any non-empty text free of '/'
+func (sv *C09Server) pattern() *regexp.Regexp {
+	var b strings.Builder
+	rest := strings.TrimSuffix(sv.URL, "/")
+	for rest != "" {
+		i := strings.IndexByte(rest, '{')
+		if i < 0 {
+			b.WriteString(regexp.QuoteMeta(rest))
+			break
+		}
+		b.WriteString(regexp.QuoteMeta(rest[:i]))
+		j := strings.IndexByte(rest, '}')
+		v := sv.Vars[rest[i+1:j]]
+		if len(v.Enum) == 0 {
+			b.WriteString(`[^/]+`)
+		} else {
+			var alts []string
+			for _, e := range append([]string{v.Default}, v.Enum...) {
+				alts = append(alts, regexp.QuoteMeta(e))
+			}
+			b.WriteString("(?:" + strings.Join(alts, "|") + ")")
+		}
+		rest = rest[j+1:]
+	}
+	return regexp.MustCompile("^" + b.String() + "((?:/.*)?)$")
+}
+
+// the specification of server matching: a declared server whose pattern the URL starts with (at a
+// segment boundary); what follows it is the path the templates are matched against
+func (c *C09Case) strip() {
+	if len(c.Servers) == 0 {
+		return
+	}
+	c.NoMatch, c.Path = true, ""
+	// the URL as both routers read it: re-encoded by net/url
+	seen := c.URL
+	if u, err := url.Parse(c.URL); err == nil {
+		seen = u.String()
+	}
+	for i := range c.Servers {
+		if m := c.Servers[i].pattern().FindStringSubmatch(seen); m != nil {
+			c.NoMatch, c.Path = false, m[1]
+			if c.Path == "" {
+				c.Path = "/"
+			}
+			return
+		}
+	}
+}
+
 type C09RObs struct {
 	Kind     int               `json:"kind"` // 0 found, 1 not found, 2 method not allowed, 3 panic, 4 other error
 	Template string            `json:"template,omitempty"`
@@ -58,17 +143,31 @@ func c09Doc(c *C09Case) *openapi3.T {
 		}
 		doc.Paths.Set(p.Template, item)
 	}
+	for _, sv := range c.Servers {
+		s := &openapi3.Server{URL: sv.URL}
+		for n, v := range sv.Vars {
+			if s.Variables == nil {
+				s.Variables = map[string]*openapi3.ServerVariable{}
+			}
+			s.Variables[n] = &openapi3.ServerVariable{Default: v.Default, Enum: v.Enum}
+		}
+		doc.Servers = append(doc.Servers, s)
+	}
 	return doc
 }
 
 func c09Find(r routers.Router, c *C09Case) C09RObs {
 	var o C09RObs
-	u, err := url.Parse(c.Path)
+	target := c.Path
+	if len(c.Servers) > 0 {
+		target = c.URL
+	}
+	u, err := url.Parse(target)
 	if err != nil {
 		o.Kind, o.Err = 4, err.Error()
 		return o
 	}
-	req := &http.Request{Method: c.Method, URL: u, Header: http.Header{}}
+	req := &http.Request{Method: c.Method, URL: u, Header: http.Header{}, Host: u.Host}
 	var route *routers.Route
 	var params map[string]string
 	var ferr error
@@ -90,6 +189,16 @@ func c09Find(r routers.Router, c *C09Case) C09RObs {
 		return o
 	}
 	o.Template, o.Method, o.Params = route.Path, route.Method, params
+	if len(c.Servers) > 0 {
+		// the values of server variables are reported too: the property speaks of the template's parameters
+		o.Params = map[string]string{}
+		for _, m := range varRe.FindAllStringSubmatch(route.Path, -1) {
+			n := strings.TrimSuffix(m[1], "*")
+			if v, ok := params[n]; ok {
+				o.Params[n] = v
+			}
+		}
+	}
 	if route.Operation == nil {
 		o.Kind, o.Err = 4, "route without operation"
 	}
@@ -145,9 +254,14 @@ func c09Coq(c *C09Case, o *C09Obs) string {
 	if u != nil {
 		dec, raw = u.Path, u.EscapedPath()
 	}
-	return fmt.Sprintf("mkC09 %s %s %s %s %d%%N %s %s %d%%N %s %s", coqList(paths), coqStr(c.Method), coqStr(dec), coqStr(raw),
+	if len(c.Servers) > 0 {
+		// with servers the legacy router matches the URL text (escaped), as gorilla/mux does; what
+		// follows the server is already in that form (and may start with "//": not to be parsed as a URL)
+		dec, raw = c.Path, c.Path
+	}
+	return fmt.Sprintf("mkC09 %s %s %s %s %d%%N %s %s %d%%N %s %s %s", coqList(paths), coqStr(c.Method), coqStr(dec), coqStr(raw),
 		o.Legacy.Kind, coqStr(o.Legacy.Template), c09Params(o.Legacy.Params),
-		o.Gorilla.Kind, coqStr(o.Gorilla.Template), c09Params(o.Gorilla.Params))
+		o.Gorilla.Kind, coqStr(o.Gorilla.Template), c09Params(o.Gorilla.Params), coqBool(c.NoMatch))
 }
 
 var c09Lits = []string{"a", "b", "items", "users", "v1", "x-1", "a.b"}
@@ -243,7 +357,52 @@ func c09Random(r *Rng) C09Case {
 		path = p.Template // the template text itself as a URL
 	}
 	c.Path = path
+	if r.Chance(35) {
+		c09AddServers(r, &c)
+	}
 	return c
+}
+
+var c09ServerPool = []C09Server{
+	{URL: "/base"}, {URL: "/api/v1/"}, {URL: "https://api.example.com"}, {URL: "https://api.example.com/v1"}, {URL: "http://example.com:8080/x"},
+	{URL: "https://{tenant}.example.com/base", Vars: map[string]C09Var{"tenant": {Default: "acme", Enum: []string{"acme", "beta"}}}},
+	{URL: "https://api.example.com/{version}/store", Vars: map[string]C09Var{"version": {Default: "v1", Enum: []string{"v1", "v2"}}}},
+	{URL: "https://api.example.com/s/{region}", Vars: map[string]C09Var{"region": {Default: "eu"}}},
+	{URL: "{scheme}://api.example.com/s", Vars: map[string]C09Var{"scheme": {Default: "https", Enum: []string{"http", "https"}}}},
+	{URL: "http://example.com:{port}/p", Vars: map[string]C09Var{"port": {Default: "8443"}}},
+}
+
+// one or two declared servers; the request goes to one of their prefixes (or, sometimes, elsewhere)
+func c09AddServers(r *Rng, c *C09Case) {
+	first := Pick(r, c09ServerPool)
+	c.Servers = []C09Server{first}
+	if r.Chance(40) {
+		second := Pick(r, c09ServerPool)
+		// relative and absolute servers are not mixed: the routers differ on a relative server met by an absolute URL
+		// nor servers of which one's URLs extend the other's (the routers disagree on which of two matching servers counts)
+		overlap := first.pattern().MatchString(strings.TrimSuffix(second.prefixes()[0], "/")) || second.pattern().MatchString(strings.TrimSuffix(first.prefixes()[0], "/"))
+		if second.URL != first.URL && strings.HasPrefix(second.URL, "/") == strings.HasPrefix(first.URL, "/") && !overlap {
+			c.Servers = append(c.Servers, second)
+		}
+	}
+	sv := Pick(r, c.Servers)
+	prefix := strings.TrimSuffix(Pick(r, sv.prefixes()), "/")
+	switch r.Intn(10) {
+	case 0:
+		if strings.HasPrefix(prefix, "/") {
+			prefix = "/elsewhere"
+		} else {
+			prefix = "https://other.example.org/base"
+		}
+	case 1:
+		if i := strings.LastIndex(prefix, "/"); i > 8 || (i >= 0 && strings.HasPrefix(prefix, "/")) {
+			prefix = prefix[:i] + "/nope"
+		}
+	case 2:
+		prefix += "x" // the prefix is not followed by a segment boundary
+	}
+	c.URL = prefix + c.Path
+	c.strip()
 }
 
 func c09Directed() []C09Case {
@@ -275,7 +434,7 @@ func init() {
 			}
 		}
 		meta := &Meta{Property: "C09", Seed: seed, Histogram: map[string]int{}, Shard: 1000,
-			Rule: "directed literal/templated sibling families + seeded random documents (1-5 templates of 1-4 segments, shared prefixes, literal and templated siblings, trailing slashes; 1-4 methods each; no servers) x requests that fill a template (values incl. percent-escapes and non-ASCII) or perturb it (extra/missing/empty segment, trailing slash, other or unknown method, the template text itself); non-trivial = both routers were built; distinct by JSON of the case"}
+			Rule: "directed literal/templated sibling families + seeded random documents (1-5 templates of 1-4 segments, shared prefixes, literal and templated siblings, trailing slashes; 1-4 methods each; 35% with one or two declared servers from a pool of relative, absolute, port, host-variable, path-variable, scheme-variable URLs - never one extending the other) x requests that fill a template (values incl. percent-escapes and non-ASCII) or perturb it (extra/missing/empty segment, trailing slash, other or unknown method, the template text itself), sent under a declared server (variables at their default or an enum value) or under another host / base path / a prefix not ending at a segment boundary; server matching is specified on the harness side and what follows the server is judged by the model; non-trivial = both routers were built; distinct by JSON of the case"}
 		seen := map[string]bool{}
 		var terms []string
 		var idx []int
